@@ -109,7 +109,8 @@ class Workflow:
 class World:
     FIELDS = ("wf", "files", "conf", "tracked", "hashes", "logs", "sim")
 
-    def __init__(self, wf, files=None, conf=None, tracked=None, hashes=None, logs=None, sim=None):
+    def __init__(self, wf, files=None, conf=None, tracked=None, hashes=None, logs=None, sim=None, pool=None):
+        self.pool = pool  # local worker pool: operation log + summary (mc.localbridge), or None
         self.wf = wf
         self.files = dict(files or {})
         self.conf = conf
@@ -120,7 +121,7 @@ class World:
 
     def copy(self):
         return World(self.wf, dict(self.files), copy.deepcopy(self.conf), copy.deepcopy(self.tracked), copy.deepcopy(self.hashes),
-                     dict(self.logs), copy.deepcopy(self.sim))
+                     dict(self.logs), copy.deepcopy(self.sim), copy.deepcopy(self.pool))
 
     def clock(self):
         return max([r for r, _ in self.files.values()] + [0])
@@ -205,9 +206,10 @@ class Session:
         self.keep = keep
         self.world0 = world
         self.sim = None
-        self.sim_hook = None
-        self.local_connect = None  # callable(cls, hostname, port, attempts) -> Client, when a (virtual) worker pool exists
+        self.live = None
+        self.local_connect = None
         self.connect_attempts = []
+        self.sim_hook = None
         self.file_hook = None  # file_hook(event, path): event in open/write/close on state files opened for writing by gwf
         self.touch_events = []
         self.clock = world.clock()
@@ -217,6 +219,8 @@ class Session:
         return self
 
     def __exit__(self, *a):
+        if getattr(self, "live", None) is not None:
+            self.live.close()
         if not self.keep:
             shutil.rmtree(self.dir, ignore_errors=True)
 
@@ -251,6 +255,12 @@ class Session:
         state["calls"] = 0
         state["exe_count"] = {}
         self.sim = simsched.Sim(state)
+        self.live = None
+        if w.pool is not None:
+            from mc import localbridge
+
+            self.live = localbridge.LivePool(w.pool, self.proj)
+            self.local_connect = localbridge.make_connect(self.live, self.connect_attempts)
 
     def write_files(self, files):
         for rel, (rank, content) in files.items():
@@ -432,7 +442,7 @@ class Session:
             self.clock += 1
             files[p] = (self.clock, files[p][1])
             unexpected.append("unjournaled-touch:" + p)
-        w = World(self.world0.wf, files, conf, tracked, hashes, logs, copy.deepcopy(self.sim.s))
+        w = World(self.world0.wf, files, conf, tracked, hashes, logs, copy.deepcopy(self.sim.s), self.live.pool_dict() if self.live is not None else None)
         w.unexpected = unexpected
         return w
 
